@@ -114,8 +114,15 @@ def check(ctx):
     if f is not None:
         gt = lambda a: a.kind == "cmp" and ((a.op == "Gt" and all_fields(a.a)[-1:] == [TL + "::IntervalEntry.time"]) or (a.op == "Lt" and all_fields(a.b)[-1:] == [TL + "::IntervalEntry.time"]))
         def some_ret(g):
-            return [pt for pt in g.points() if direct_match(g, pt, Agg(r"(std|core)::option::Option", "Some", transitive=False)) and not g.node(pt)["l"]["p"] and g.node(pt)["l"]["l"] == 0]
-        ctx.guarded(ST, some_ret, gt, "next-expiry-only-if-future", "schedule_timer returns Some(entry.time - now) only behind `entry.time > now` (no underflow; expired timers are run first)",
+            # the subtraction itself (`entry.time - now`), wherever its result travels to (directly into `Some(..)`, or through a helper's Result)
+            out = []
+            for pt in g.points():
+                n = g.node(pt)
+                if not g.is_term(pt) and n.get("s") == "=" and n["rv"]["r"] == "bin" and n["rv"]["op"] in ("Sub", "SubWithOverflow", "SubUnchecked") and \
+                        all_fields(simplify(trace_operand(g, n["rv"]["a"])))[-1:] == [TL + "::IntervalEntry.time"]:
+                    out.append(pt)
+            return out
+        ctx.guarded(ST, some_ret, gt, "next-expiry-only-if-future", "schedule_timer computes the next expiry `entry.time - now` only behind `entry.time > now` (no underflow; expired timers are run first)",
                     rule="R-ENUM", pred_label="edge `entry.time > now`")
     # ---- timer thread wake-up slot
     TT = TL + "::TimerThread"
